@@ -36,6 +36,7 @@ class _G:
         self.feats = set()
         self.avoided = set()
         self.structs = {}  # tag -> [(field name, type, bit width | None)]
+        self.opaque = []  # (kind, tag) of tags that are declared and never completed
         self.unions = {}
         self.enums = {}  # tag -> [names]
         self.enumerators = []
@@ -118,6 +119,8 @@ class _G:
             return "enum %s %s" % (t[1], name)
         if k == "struct" or k == "union":
             return "%s %s %s" % (k, t[1], name)
+        if k == "ostruct" or k == "ounion":  # tag that is declared but never completed
+            return "%s %s %s" % (k[1:], t[1], name)
         if k == "ptr":
             if t[1][0] in ("arr", "fn"):
                 return self.decl(t[1], "(*%s)" % name)
@@ -476,6 +479,17 @@ class _G:
                     if f[2] is not None:
                         self.feat("expr:bitfield-access")
                     return "%s.%s" % (n, f[0])
+        ptrs = [(n, t) for n, t in env if t[0] == "ptr" and t[1][0] != "fn"]
+        if k >= 15 and ptrs and self.chance(3):
+            n, t = self.pick(ptrs)
+            self.feat("expr:pointer-param")
+            if t[1][0] == "int" and self.chance(5):
+                return "(%s ? *%s : 0)" % (n, n)  # dereferenced only behind a null test (the units are never run anyway)
+            if t[1][0] == "struct":
+                fl = [f for f in self.structs[t[1][1]] if f[1][0] == "int"]
+                if fl and self.chance(6):
+                    return "(%s ? %s->%s : 1)" % (n, n, self.pick(fl)[0])
+            return "(%s %s 0)" % (n, self.pick(["==", "!="]))
         if k < 17:
             fl = [f for f in self.funcs if f[1][0] == "int"]
             if fl:
@@ -582,6 +596,9 @@ class _G:
             return "return %s;" % self.int_expr(env, 2)
         if ret[0] == "flt":
             return "return %s;" % self.pick(["1.5", "0", "(double)2"])
+        same = [n for n, t in env if t == ret]
+        if ret[0] == "ptr" and same and self.chance(6):
+            return "return %s;" % self.pick(same)
         return "return 0;"
 
     def switch_stmt(self, env, depth, ctx, ret):
@@ -660,14 +677,16 @@ class _G:
         for _ in range(self.i(1, self.cfg.max_funcs)):
             nm = self.name("f")
             ret = self.pick([("int", "int"), ("int", "int"), self.int_type(), ("flt", "double"), None])
-            params = [self.pick([("int", "int"), self.int_type(), ("flt", "double")]) for _ in range(self.i(0, 3))]
+            params = [self.param_type() for _ in range(self.i(0, 3))]
+            if ret is not None and self.want("fn:pointer-return", 1):
+                ret = self.pick([p for p in params if p[0] == "ptr"] or [("ptr", ("int", "int"))])
             pnames = [self.name("p") for _ in params]
             env = [g for g in self.globals] + list(zip(pnames, params))
             sc = ""
             if self.chance(2):
                 sc = "static "
                 self.feat("decl:static-function")
-            head = "%s%s %s(%s) {" % (sc, "void" if ret is None else ret[1], nm, ", ".join(self.decl(p, n) for p, n in zip(params, pnames)) or "void")
+            head = "%s%s(%s) {" % (sc, "void " + nm if ret is None else self.decl(ret, nm), ", ".join(self.decl(p, n) for p, n in zip(params, pnames)) or "void")
             body = self.block(env, self.cfg.max_depth, frozenset(), ret)
             tail = [self.return_stmt(env, ret)] if ret is not None else []
             self.lines += [head] + ["  " + l for l in body + tail] + ["}"]
@@ -689,7 +708,33 @@ class _G:
                     self.lines.append("struct %s { int tag; %s; } %s = { 1, %s };" % (sn, self._fdecl(ret, params, "(*cb)"), self.name("g"), nm))
 
     def _fdecl(self, ret, params, inner):
-        return "%s %s(%s)" % ("void" if ret is None else ret[1], inner, ", ".join(self.decl(p, "") for p in params) or "void")
+        args = ", ".join(self.decl(p, "") for p in params) or "void"
+        if ret is None:
+            return "void %s(%s)" % (inner, args)
+        return self.decl(ret, "%s(%s)" % (inner, args))
+
+    def param_type(self):
+        """Parameter types: mostly scalars; sometimes a pointer to a scalar, to a complete struct / union, or to a tag that
+        is only declared ('struct ctx;', an opaque handle) - valid C as long as the pointee is never needed."""
+        k = self.i(0, 19)
+        if k < 13:
+            return self.pick([("int", "int"), self.int_type(), ("flt", "double")])
+        if k < 15 and self.ok("param:pointer"):
+            self.feat("param:pointer")
+            return ("ptr", self.pick([("int", "int"), ("int", "char"), ("int", "unsigned short"), ("flt", "double")]))
+        if k < 17 and (self.structs or self.unions) and self.ok("param:struct-pointer"):
+            self.feat("param:struct-pointer")
+            kind = "struct" if self.structs and (not self.unions or self.chance(5)) else "union"
+            return ("ptr", (kind, self.pick(sorted(self.structs if kind == "struct" else self.unions))))
+        if k < 19 and self.ok("param:opaque-pointer"):
+            self.feat("param:opaque-pointer")
+            if not self.opaque or self.chance(3):
+                kind = self.pick(["ostruct", "ostruct", "ounion"])
+                tag = self.name("Op")
+                self.opaque.append((kind, tag))
+                self.lines.append("%s %s;" % (kind[1:], tag))
+            return ("ptr", self.pick(self.opaque))
+        return ("int", "int")
 
 
 @st.composite
